@@ -382,11 +382,11 @@ def instantiate(pos, call, n, fref=None, args=None):
 def nest_build(ctor, depth, var="v"):
     """Statements building a value nested `depth` deep in a loop. ctor in list|tuple|some|ok|err|struct|enum|dictv|mix"""
     init = {"list": "[]", "tuple": "(0, 0)", "some": "None", "ok": "Ok(0)", "err": "Err(0)", "struct": "VLeaf", "structlist": "VLBox{ x: [] }", "structopt": "VOBox{ x: None }",
-            "enum": "VLeaf", "dictv": "Dict[\"k\" => 0]", "mix": "[]"}[ctor]
+            "enum": "VLeaf", "dictv": "Dict[\"k\" => 0]", "mix": "[]", "dictlist": "Dict[\"k\" => [0]]"}[ctor]
     step = {"list": "[%s]", "tuple": "(%s, 1)", "some": "Some(%s)", "ok": "Ok(%s)", "err": "Err(%s)",
             "struct": "VBoxed(VBox{ x: %s })", "structlist": "VLBox{ x: [%s] }", "structopt": "VOBox{ x: Some(%s) }",
             "enum": "VNode(%s)", "dictv": "Dict[\"k\" => %s]",
-            "mix": "[Some((%s, 1))]"}[ctor] % var
+            "mix": "[Some((%s, 1))]", "dictlist": "Dict[\"k\" => [%s]]"}[ctor] % var
     defs = ""
     if ctor == "structlist":
         defs = "struct VLBox {\n  x: List<VLBox>,\n}\n"
